@@ -22,6 +22,9 @@ checks = {
  "C11": dict(level="model_checking",
    text="Bounded model checking of Unfold and Emit with a virtual clock that is a solver variable (lax: ticks of any size at any step; urgent: time moves only when nothing else can): exact successive sequence, index/Try skipping, at most one application per elapsed tick, j-th value not before (j+1) ticks, exactly at (j+1) ticks for a consumer that keeps up, stop and close after cancel. All runs of up to K steps.",
    technique="SSA-to-automata extraction + SMT-based bounded model checking with symbolic schedule and symbolic time (z3)", ref="DESIGN.md §4.5, §5 C11", note=BMC_NOTE),
+ "C13": dict(level="model_checking",
+   text="Bounded model checking of Throttling (pacer + data goroutine) with the URGENT virtual clock (synctest's rule), pre-filled input, always-ready consumer: order, exactly-once, close, and floor(i/ops)*interval <= d[i] <= floor(i/ops)*interval + interval for every element. The per-window burst bound under arbitrary arrival patterns (lax clock) is NOT established: its query did not finish (stated in DESIGN.md 17 and in the evidence).",
+   technique="SSA-to-automata extraction + SMT-based bounded model checking with symbolic schedule and symbolic time (z3)", ref="DESIGN.md §4.5, §5 C13, §17", note=BMC_NOTE),
  "C16": dict(level="other",
    text="Symbolic execution (concrete structure, forked opcode programs) of duct's combinators: every well-typed program of up to 5 steps (7 thorough) over a ladder of element types is built with the real generic functions and visited by a recording visitor; the trace is compared with a specification interpreter that keeps an explicit stack of open contexts; second harness: the visitor fails at every callback position. Everything is concrete, so assertions are decided by evaluation of the real code in the interpreter (no solver query is needed): this is exhaustive enumeration of programs within the bound through the SSA interpreter, the weakest use of the technique in this suite.",
    technique="symbolic execution of go/ssa with forked program shapes (assertions decided by term normalisation)", ref="DESIGN.md §5 C16"),
